@@ -33,7 +33,8 @@ REQUIRED_CLASSES = {'tie': 200, 'over': 200, 'under': 200, 'nfrac<0': 100, 'nfra
 ROUTES = ('ctor', 'call', 'set_val', 'setitem', 'setitem_int')
 INT_ELEMS = ('np.int8', 'np.int16', 'np.int32', 'np.int64', 'np.uint8', 'np.uint16', 'np.uint32', 'np.uint64')
 FLT_ELEMS = ('np.float16', 'np.float32', 'np.float64', 'np.longdouble')
-ELEMS = ('int', 'float', 'str') + INT_ELEMS + FLT_ELEMS
+BOOL_ELEMS = ('bool', 'np.bool_')       # True / False are the integers 1 / 0 (python: bool is an int; numpy: comparison results used as 0/1 factors)
+ELEMS = ('int', 'float', 'str') + INT_ELEMS + FLT_ELEMS + BOOL_ELEMS
 # 'nplist' / 'nptuple' / 'npnlist': python containers whose elements are numpy scalars (e.g. list(np_array))
 CONTS = ('scalar', '0d', '1d', '2d', 'list', 'nlist', 'tuple', 'ntuple', 'nplist', 'nptuple', 'npnlist')
 CPLX_ELEMS = ('complex', 'np.complex64', 'np.complex128')
@@ -49,6 +50,9 @@ def snap(v0, elem, n_frac):
     if elem == 'int':
         k = v0.numerator // v0.denominator
         return Fraction(k), int(k)
+    if elem in BOOL_ELEMS:
+        k = 1 if v0 >= Fraction(1, 2) else 0
+        return Fraction(k), (bool(k) if elem == 'bool' else np.bool_(k))
     if elem in INT_ELEMS:
         t = _nptype(elem)
         info = np.iinfo(t)
@@ -78,8 +82,8 @@ def build(cont, elem, objs, shape2=None):
     """Put carrier elements in a container."""
     if cont == 'scalar':
         return objs[0]
-    if elem in ('int', 'float', 'str'):
-        arr_dtype = {'int': np.int64, 'float': np.float64, 'str': None}[elem]
+    if elem in ('int', 'float', 'str', 'bool'):
+        arr_dtype = {'int': np.int64, 'float': np.float64, 'str': None, 'bool': np.bool_}[elem]
     else:
         arr_dtype = _nptype(elem)
     if cont == '0d':
@@ -94,7 +98,7 @@ def build(cont, elem, objs, shape2=None):
         cont = {'nplist': 'list', 'nptuple': 'tuple', 'npnlist': 'nlist'}[cont]
     else:
         plain = [o.item() if isinstance(o, np.generic) and elem != 'np.longdouble' else o for o in objs] \
-            if elem not in ('int', 'float', 'str') else list(objs)
+            if elem not in ('int', 'float', 'str', 'bool') else list(objs)
     if cont == 'list':
         return list(plain)
     if cont == 'tuple':
@@ -523,7 +527,7 @@ def st_store_case(draw, max_w=52):
     elem = draw(st.sampled_from(ELEMS))
     # decimal strings travel alone or in lists/tuples; ndarrays of str are not a numeric dtype (outside the statement)
     cont = draw(st.sampled_from(CONTS if elem != 'str' else ('scalar', 'list', 'nlist', 'tuple', 'ntuple')))
-    if cont in ('nplist', 'nptuple', 'npnlist') and elem in ('int', 'float', 'np.longdouble'):
+    if cont in ('nplist', 'nptuple', 'npnlist') and elem in ('int', 'float', 'np.longdouble', 'bool'):
         elem = draw(st.sampled_from(INT_ELEMS + ('np.float16', 'np.float32', 'np.float64')))
     route = draw(st.sampled_from(ROUTES))
     # core domain: |v| < 2^53 and |x| < 2^62
